@@ -308,7 +308,27 @@ func c18Run(c *h.Ctx) {
 			a.GetTable().UpdateTableState(t)
 		}
 	}
-	s, err := h.NewSim(h.SimConfig{Setting: cfg.Setting(false), Interval: 0, Backend: rig, OnSync: fan}, r.Int63())
+	// in half of the cases the blind level is raised right after every open (from another goroutine: it takes the
+	// engine lock as soon as the open has finished): the hand keeps its own amounts, the table's live level differs
+	levelUp := r.Intn(2) == 0
+	var lastUpGC int64
+	var simp *h.Sim
+	after := func(t *pt.Table) {
+		if !levelUp || simp == nil || t.State.Status != pt.TableStateStatus_TableGameOpened {
+			return
+		}
+		gc := int64(t.State.GameCount)
+		if atomic.SwapInt64(&lastUpGC, gc) == gc {
+			return
+		}
+		b := *t.State.BlindState
+		go simp.TE.UpdateBlind(b.Level+1, b.Ante*2+1, b.Dealer*2, b.SB*2+1, b.BB*2+1)
+	}
+	s, err := h.NewSim(h.SimConfig{Setting: cfg.Setting(false), Interval: 0, Backend: rig, OnSync: fan, OnSyncAfter: after}, r.Int63())
+	simp = s
+	if levelUp {
+		c.Feature("level-raised-right-after-every-open")
+	}
 	if err != nil {
 		c.Inconclusive(err.Error())
 		return
@@ -552,7 +572,7 @@ func init() {
 		},
 		RequiredFeatures: func(tier string) []string {
 			f := []string{"bot-action:ready", "bot-action:pay", "bot-action:call", "bot-action:raise", "bot-action:bet", "bot-action:allin", "bot-action:fold", "bot-action:check", "bot-action:pass", "stale-view-redelivered", "table-event-mid-hand", "stack-at-most-one-big-blind"}
-			f = append(f, "humanized", "table-events-while-bots-think", "same-view-delivered-concurrently", "state-first-seen-on-an-opened-snapshot")
+			f = append(f, "humanized", "table-events-while-bots-think", "same-view-delivered-concurrently", "state-first-seen-on-an-opened-snapshot", "level-raised-right-after-every-open")
 			return f
 		},
 		CaseTimeout: 240e9,
